@@ -16,6 +16,7 @@ import PgProofs.GenEvo
 import PgProofs.GenEvoPop
 import PgProofs.GenDedupEvo
 import PgProofs.GenEvoGen
+import PgProofs.GenEvoChunk
 namespace Pg.C15
 
 /-- Generated obligation: the current source has the repaired shape of `Deduping.recover/_replay`
@@ -756,5 +757,48 @@ theorem C15_every_crash_point (env : Env) (hq : env.q = currentQuirks) (a : Algo
 example : Supported (.deduping (.random 3 true) 0 1 4 false) := .dedupBase _ _ _ _ _ (Or.inr ⟨3, true, rfl⟩)
 example : Supported (.evolution .sweeping none) := .evoBase _ _ (Or.inl rfl)
 example : (f35Env currentQuirks).q = currentQuirks := rfl
+
+/-! ### Chunked recovery of Evolution: positive theorem under the complement of F166's condition -/
+
+/-- Evolution (repaired source; Sweeping / Random initialiser; ANY reproduction and population update,
+also updates that are not equivalent to one batch application), from ANY evolution state: if the
+chunked history is well labelled (`EntryOk`, as every persisted history is — `live_evolution`) and
+`chunksOrdered` holds — for every two `recover()` calls, no proposal of the later call was fed back
+before a proposal of the earlier call — then recovering chunk by chunk equals recovering the whole
+history in one call: counters, population, generation counter, init-phase flag, initialiser. -/
+theorem C15_recover_chunks_evolution (env : Env) (hq : env.q = Quirks.patched) (init : Algo) (hb : IsBase init)
+    (sz : Option Nat) (h : Hist) (hs : List Hist) (hok : ∀ e ∈ (h :: hs).flatten, EntryOk e)
+    (hord : chunksOrdered (h :: hs) = true)
+    (np nf : Nat) (si : St) (ini : Bool) (g : Nat) (pop pend : List Item) :
+    recoverChunks env (.evolution init sz) (.evolution np nf si ini g pop pend) (h :: hs)
+      = recover env (.evolution init sz) (.evolution np nf si ini g pop pend) (h :: hs).flatten := by
+  rw [List.flatten_cons] at hok ⊢
+  exact recoverChunks_evolution env hq init hb sz hs h np nf si ini g pop pend hok hord
+
+/-- …for the persisted history of ANY run, cut into any positive number of ordered chunks: the fresh
+instance reaches the single-call state, hence (`C15_recover`) the observable state of the live one. -/
+theorem C15_recover_chunked_evolution (env : Env) (hq : env.q = currentQuirks) (init : Algo) (hb : IsBase init)
+    (sz : Option Nat) (run : List Event) (c : Hist) (cs : List Hist)
+    (hc : (c :: cs).flatten = (runLive env (.evolution init sz) run).hist)
+    (hord : chunksOrdered (c :: cs) = true) :
+    (recoverChunks env (.evolution init sz) (setup (.evolution init sz)) (c :: cs)).map observe
+      = .ok (observe (runLive env (.evolution init sz) run).st) := by
+  have hq' : env.q = Quirks.patched := by rw [hq, C15_quirks_patched]
+  have hent := (live_evolution env init hb sz run).2
+  simp only [setup]
+  rw [C15_recover_chunks_evolution env hq' init hb sz c cs (by rw [hc]; exact hent) hord, hc]
+  exact C15_recover env hq (.evolution init sz) (.evoBase init sz hb) run
+
+/-- The F166 counterexample lies exactly outside the side condition; cutting the same history after
+the first proposal satisfies it (with out-of-order feedback *inside* the second chunk). -/
+theorem C15_chunksOrdered_examples :
+    chunksOrdered
+        [(runLive (f35Env .patched) f35Algo [.propose, .propose, .feedback 1 5, .feedback 0 3]).hist.take 1,
+         (runLive (f35Env .patched) f35Algo [.propose, .propose, .feedback 1 5, .feedback 0 3]).hist.drop 1] = false
+    ∧ chunksOrdered [(runLive (f35Env .patched) f35Algo f35Run).hist.take 1,
+                     (runLive (f35Env .patched) f35Algo f35Run).hist.drop 1] = true
+    ∧ chunksOrdered [(runLive (f35Env .patched) f35Algo f35Run).hist.take 2,
+                     (runLive (f35Env .patched) f35Algo f35Run).hist.drop 2] = false := by
+  decide
 
 end Pg.C15
